@@ -21,6 +21,8 @@ structure Obj.refsIn (S C : Nat → Prop) (ob : Obj) : Prop where
   attrs : ∀ kv ∈ ob.attrs, kv.2.inSets S C
   watchers : ∀ kv ∈ ob.watchers, ∀ wt ∈ kv.2, wt.inSet S
   dyn : ∀ kv ∈ ob.dyn, ∀ wt ∈ kv.2, wt.inSet S
+  /-- the `_objects` / `names` containers of its per-instance Selector Parameter copies -/
+  pcopies : ∀ kv ∈ ob.pcopies, ∀ s : Nat × Nat, kv.2.slots = some s → C s.1 ∧ C s.2
 
 /-- the objects in `S` refer only to objects in `S` and lists in `C` -/
 def Closed (w : World) (S C : Nat → Prop) : Prop :=
@@ -145,12 +147,27 @@ theorem Good.refl {w : World} {S C : Nat → Prop} (hc : Closed w S C) : Good w 
 theorem Good.trans {w w1 w2 : World} {S C : Nat → Prop} (a : Good w w1 S C) (b : Good w1 w2 S C) : Good w w2 S C :=
   ⟨b.closed, a.loc.trans b.loc⟩
 
+/-- every list created from now on may be referenced by the objects of `S` (they own the future) -/
+def Fresh (w : World) (C : Nat → Prop) : Prop := ∀ n : Nat, w.cells.length ≤ n → C n
+
+theorem Good.fresh {w w' : World} {S C : Nat → Prop} (g : Good w w' S C) (hf : Fresh w C) : Fresh w' C :=
+  fun n hn => hf n (Nat.le_trans g.loc.cellsLen hn)
+
 theorem setObj_good {w : World} {S C : Nat → Prop} {o : Nat} {f : Obj → Obj} (hc : Closed w S C) (ho : S o)
     (hf : ∀ ob, w.objs[o]? = some ob → ob.refsIn S C → (f ob).refsIn S C) : Good w (w.setObj o f) S C :=
   ⟨(setObj_spec hc ho hf).1, (setObj_spec hc ho hf).2.1⟩
 
-theorem touchParam_good {w : World} {S C : Nat → Prop} {o : Nat} {p : String} (hc : Closed w S C) (ho : S o) :
-    Good w (w.touchParam o p) S C := by
+theorem appendCells_good {w : World} {S C : Nat → Prop} (extra : List (List Int)) (hc : Closed w S C)
+    (hf : Fresh w C) : Good w { w with cells := w.cells ++ extra } S C := by
+  refine ⟨hc, ⟨fun _ _ => rfl, ?_, rfl, ⟨[], by simp, by simp⟩, Nat.le_refl _, by simp⟩⟩
+  intro c hcc
+  show (w.cells ++ extra)[c]? = w.cells[c]?
+  rcases Nat.lt_or_ge c w.cells.length with h1 | h1
+  · exact List.getElem?_append_left h1
+  · exact absurd (hf c h1) hcc
+
+theorem touchParam_good {w : World} {S C : Nat → Prop} {o : Nat} {p : String} (hc : Closed w S C) (ho : S o)
+    (hf : Fresh w C) : Good w (w.touchParam o p) S C := by
   unfold World.touchParam
   split
   · exact Good.refl hc
@@ -158,7 +175,21 @@ theorem touchParam_good {w : World} {S C : Nat → Prop} {o : Nat} {p : String} 
     · exact Good.refl hc
     · split
       · exact Good.refl hc
-      · exact setObj_good hc ho (fun ob _ h => ⟨h.values, h.attrs, h.watchers, h.dyn⟩)
+      · rename_i d _
+        split
+        · refine setObj_good hc ho (fun ob _ h => ⟨h.values, h.attrs, h.watchers, h.dyn, ?_⟩)
+          intro kv hkv s hs
+          rcases mem_insert hkv with rfl | hm
+          · simp at hs
+          · exact h.pcopies kv hm s hs
+        · rename_i co cn _
+          have g1 := appendCells_good (S := S) [deref w.cells co, deref w.cells cn] hc hf
+          refine g1.trans (setObj_good g1.closed ho (fun ob _ h => ⟨h.values, h.attrs, h.watchers, h.dyn, ?_⟩))
+          intro kv hkv s hs
+          rcases mem_insert hkv with rfl | hm
+          · simp at hs; subst hs
+            exact ⟨hf _ (Nat.le_refl _), hf _ (Nat.le_succ _)⟩
+          · exact h.pcopies kv hm s hs
 
 theorem addWatcher_good {w : World} {S C : Nat → Prop} {wt : Watcher} (hc : Closed w S C) (hw : wt.inSet S) :
     Good w (w.addWatcher wt) S C := by
@@ -172,7 +203,7 @@ theorem addWatcher_good {w : World} {S C : Nat → Prop} {wt : Watcher} (hc : Cl
         { ob with watchers := insert ob.watchers n ((lookup ob.watchers n).getD [] ++ [wt]) }) S C := by
       refine setObj_good hc hw.1 ?_
       intro ob _ h
-      refine ⟨h.values, h.attrs, ?_, h.dyn⟩
+      refine ⟨h.values, h.attrs, ?_, h.dyn, h.pcopies⟩
       intro kv hkv x hx
       rcases mem_insert hkv with rfl | hm
       · simp only [List.mem_append, List.mem_singleton] at hx
@@ -201,7 +232,7 @@ theorem unwatch_good {w : World} {S C : Nat → Prop} {wt : Watcher} (hc : Close
         have g1 : Good w (w.setObj wt.inst fun ob => { ob with watchers := insert ob.watchers n l' }) S C := by
           refine setObj_good hc hw ?_
           intro ob hob h
-          refine ⟨h.values, h.attrs, ?_, h.dyn⟩
+          refine ⟨h.values, h.attrs, ?_, h.dyn, h.pcopies⟩
           intro kv hkv x hx
           rcases mem_insert hkv with rfl | hm
           · simp only [hob, Option.bind_some] at hl
@@ -262,13 +293,13 @@ theorem dynContribs_inSet {w : World} {S C : Nat → Prop} {o : Nat} (hc : Close
       · exact dynContribs_inSet hc ho rest c h
     · exact dynContribs_inSet hc ho rest c h
 
-theorem touchAll_good {S C : Nat → Prop} : ∀ (l : List (Nat × String)) (w : World), Closed w S C →
+theorem touchAll_good {S C : Nat → Prop} : ∀ (l : List (Nat × String)) (w : World), Closed w S C → Fresh w C →
     (∀ e ∈ l, S e.1) → Good w (w.touchAll l) S C
-  | [], w, hc, _ => by simp only [World.touchAll]; exact Good.refl hc
-  | (o, p) :: rest, w, hc, h => by
+  | [], w, hc, _, _ => by simp only [World.touchAll]; exact Good.refl hc
+  | (o, p) :: rest, w, hc, hf, h => by
     simp only [World.touchAll]
-    have g1 := touchParam_good (p := p) hc (h (o, p) (by simp))
-    exact g1.trans (touchAll_good rest _ g1.closed (fun e he => h e (by simp [he])))
+    have g1 := touchParam_good (p := p) hc (h (o, p) (by simp)) hf
+    exact g1.trans (touchAll_good rest _ g1.closed (g1.fresh hf) (fun e he => h e (by simp [he])))
 
 theorem installGroups_good {S C : Nat → Prop} {o : Nat} {m : String} {cs : List Contribution} (ho : S o) :
     ∀ (gs : List Nat) (w w' : World) (ws : List Watcher), Closed w S C → (∀ g ∈ gs, S g) →
@@ -295,11 +326,11 @@ theorem installGroups_good {S C : Nat → Prop} {o : Nat} {m : String} {cs : Lis
     · exact hws wt hwt
 
 theorem installDyn_good {w w' : World} {S C : Nat → Prop} {o : Nat} {md : MethodDef} {dynw : List Watcher}
-    (hc : Closed w S C) (ho : S o) (h : w.installDyn o md = (w', dynw)) :
+    (hc : Closed w S C) (ho : S o) (hf : Fresh w C) (h : w.installDyn o md = (w', dynw)) :
     Good w w' S C ∧ ∀ wt ∈ dynw, wt.inSet S := by
   unfold World.installDyn at h
   have hcs := dynContribs_inSet hc ho md.deps
-  have g1 := touchAll_good (S := S) (C := C) ((w.dynContribs o md.deps).map fun c => (c.inst, c.name)) w hc (by
+  have g1 := touchAll_good (S := S) (C := C) ((w.dynContribs o md.deps).map fun c => (c.inst, c.name)) w hc hf (by
     intro e he
     simp only [List.mem_map] at he
     obtain ⟨c, hcm, rfl⟩ := he
@@ -313,13 +344,13 @@ theorem installDyn_good {w w' : World} {S C : Nat → Prop} {o : Nat} {md : Meth
   exact ⟨g1.trans g2, hws⟩
 
 theorem installConst_good {w : World} {S C : Nat → Prop} {o : Nat} {md : MethodDef}
-    (hc : Closed w S C) (ho : S o) : Good w (w.installConst o md) S C := by
+    (hc : Closed w S C) (ho : S o) (hf : Fresh w C) : Good w (w.installConst o md) S C := by
   unfold World.installConst
   generalize dedupS (ownDeps md.deps) = ps
   simp only [mkCaller]
   split
   · exact Good.refl hc
-  · have g1 := touchAll_good (S := S) (C := C) (ps.map fun p => (o, p)) w hc (by
+  · have g1 := touchAll_good (S := S) (C := C) (ps.map fun p => (o, p)) w hc hf (by
       intro e he
       simp only [List.mem_map] at he
       obtain ⟨p, _, rfl⟩ := he
@@ -336,7 +367,7 @@ theorem setDyn_good {w : World} {S C : Nat → Prop} {o : Nat} {m : String} {dyn
     Good w (w.setObj o fun ob => { ob with dyn := insert ob.dyn m dynw }) S C := by
   refine setObj_good hc ho ?_
   intro ob _ h
-  refine ⟨h.values, h.attrs, h.watchers, ?_⟩
+  refine ⟨h.values, h.attrs, h.watchers, ?_, h.pcopies⟩
   intro kv hkv x hx
   rcases mem_insert hkv with rfl | hm
   · exact hd x hx
@@ -351,9 +382,9 @@ theorem unwatchAll_good {S C : Nat → Prop} : ∀ (old : List Watcher) (w : Wor
     exact g1.trans (unwatchAll_good rest _ g1.closed (fun x hx => h x (by simp [hx])))
 
 theorem updateDeps_good {S C : Nat → Prop} {o : Nat} {attr : String} (ho : S o) :
-    ∀ (mds : List MethodDef) (w : World), Closed w S C → Good w (w.updateDeps o attr mds) S C
-  | [], w, hc => by simp only [World.updateDeps]; exact Good.refl hc
-  | md :: rest, w, hc => by
+    ∀ (mds : List MethodDef) (w : World), Closed w S C → Fresh w C → Good w (w.updateDeps o attr mds) S C
+  | [], w, hc, _ => by simp only [World.updateDeps]; exact Good.refl hc
+  | md :: rest, w, hc, hf => by
     simp only [World.updateDeps]
     split
     · -- the dynamic watchers recorded for this method
@@ -369,35 +400,35 @@ theorem updateDeps_good {S C : Nat → Prop} {o : Nat} {attr : String} (ho : S o
             exact ((hc o ob ho hob).dyn _ (lookup_mem hl) wt hwt).1
       have g1 : Good w (w.setObj o fun ob => { ob with dyn := erase ob.dyn md.name }) S C :=
         setObj_good hc ho (fun ob _ h => ⟨h.values, h.attrs, h.watchers,
-          fun kv hkv x hx => h.dyn kv (mem_erase hkv) x hx⟩)
+          fun kv hkv x hx => h.dyn kv (mem_erase hkv) x hx, h.pcopies⟩)
       have g2 := unwatchAll_good (((w.objs[o]?).bind (fun ob => lookup ob.dyn md.name)).getD []) _ g1.closed hold
       generalize hi : World.installDyn (List.foldl (fun w wt => w.unwatch wt)
         (w.setObj o fun ob => { ob with dyn := erase ob.dyn md.name })
         (((w.objs[o]?).bind (fun ob => lookup ob.dyn md.name)).getD [])) o md = r
       obtain ⟨w3, dynw⟩ := r
-      obtain ⟨g3, hd⟩ := installDyn_good g2.closed ho hi
+      obtain ⟨g3, hd⟩ := installDyn_good g2.closed ho ((g1.trans g2).fresh hf) hi
       simp only
       have g123 := (g1.trans g2).trans g3
       split
-      · exact g123.trans (updateDeps_good ho rest _ g123.closed)
+      · exact g123.trans (updateDeps_good ho rest _ g123.closed (g123.fresh hf))
       · have g4 := setDyn_good (m := md.name) g123.closed ho hd
-        exact (g123.trans g4).trans (updateDeps_good ho rest _ g4.closed)
-    · exact updateDeps_good ho rest w hc
+        exact (g123.trans g4).trans (updateDeps_good ho rest _ g4.closed ((g123.trans g4).fresh hf))
+    · exact updateDeps_good ho rest w hc hf
 
 theorem initDeps_good {S C : Nat → Prop} {o : Nat} (ho : S o) :
-    ∀ (mds : List MethodDef) (w : World), Closed w S C → Good w (w.initDeps o mds) S C
-  | [], w, hc => by simp only [World.initDeps]; exact Good.refl hc
-  | md :: rest, w, hc => by
+    ∀ (mds : List MethodDef) (w : World), Closed w S C → Fresh w C → Good w (w.initDeps o mds) S C
+  | [], w, hc, _ => by simp only [World.initDeps]; exact Good.refl hc
+  | md :: rest, w, hc, hf => by
     simp only [World.initDeps]
-    have g0 := installConst_good (md := md) hc ho
+    have g0 := installConst_good (md := md) hc ho hf
     generalize hi : (w.installConst o md).installDyn o md = r
     obtain ⟨w1, dynw⟩ := r
-    obtain ⟨g1, hd⟩ := installDyn_good g0.closed ho hi
+    obtain ⟨g1, hd⟩ := installDyn_good g0.closed ho (g0.fresh hf) hi
     simp only
     split
-    · exact (g0.trans g1).trans (initDeps_good ho rest _ g1.closed)
+    · exact (g0.trans g1).trans (initDeps_good ho rest _ g1.closed ((g0.trans g1).fresh hf))
     · have g2 := setDyn_good (m := md.name) g1.closed ho hd
-      exact ((g0.trans g1).trans g2).trans (initDeps_good ho rest _ g2.closed)
+      exact ((g0.trans g1).trans g2).trans (initDeps_good ho rest _ g2.closed (((g0.trans g1).trans g2).fresh hf))
 
 /-- an argument that stays inside `S`/`C`: no new list unless the next heap address is in `C` -/
 def Arg.inSets (w : World) (S C : Nat → Prop) : Arg → Prop
@@ -459,9 +490,46 @@ theorem mem_sortByPrec {x : Watcher} : ∀ {l : List Watcher}, x ∈ sortByPrec 
     · simp [h]
     · exact List.mem_cons_of_mem _ (mem_sortByPrec h)
 
+theorem setCell_good {w : World} {S C : Nat → Prop} {c : Nat} (l : List Int) (hc : Closed w S C) (hcc : C c) :
+    Good w { w with cells := w.cells.set c l } S C := by
+  refine ⟨hc, ⟨fun _ _ => rfl, ?_, rfl, ⟨[], by simp, by simp⟩, Nat.le_refl _, by simp⟩⟩
+  intro c' h
+  show (w.cells.set c l)[c']? = _
+  rw [List.getElem?_set_ne (fun (e : c = c') => h (by rw [← e]; exact hcc))]
+
+theorem pcopy_slots_inC {w : World} {S C : Nat → Prop} {o : Nat} {p : String} {co cn : Nat}
+    (hc : Closed w S C) (ho : S o)
+    (h : (w.objs[o]?).bind (fun ob => (lookup ob.pcopies p).bind (·.slots)) = some (co, cn)) : C co ∧ C cn := by
+  cases hob : w.objs[o]? with
+  | none => simp [hob] at h
+  | some ob =>
+    simp only [hob, Option.bind_some] at h
+    cases hl : lookup ob.pcopies p with
+    | none => simp [hl] at h
+    | some pc =>
+      simp only [hl, Option.bind_some] at h
+      exact (hc o ob ho hob).pcopies _ (lookup_mem hl) (co, cn) h
+
+theorem ensureInObjects_good {w w' : World} {S C : Nat → Prop} {o : Nat} {p : String} {v : Val}
+    (hc : Closed w S C) (ho : S o) (h : w.ensureInObjects o p v = some w') : Good w w' S C := by
+  unfold World.ensureInObjects at h
+  split at h
+  · simp at h
+  · split at h
+    · simp at h; subst h; exact Good.refl hc
+    · simp at h
+    · split at h
+      · rename_i n co cn hs
+        split at h
+        · simp at h; subst h; exact Good.refl hc
+        · simp at h; subst h
+          exact setCell_good _ hc (pcopy_slots_inC hc ho hs).1
+      · simp at h
+
 /-- `obj.p = v` on an object of a closed set with an argument from the set -/
 theorem doSet_good {w w' : World} {S C : Nat → Prop} {o : Nat} {p : String} {a : Arg}
-    (hc : Closed w S C) (ho : S o) (ha : a.inSets w S C) (h : doSet w o p a = .ok w') : Good w w' S C := by
+    (hc : Closed w S C) (ho : S o) (hf : Fresh w C) (ha : a.inSets w S C) (h : doSet w o p a = .ok w') :
+    Good w w' S C := by
   unfold doSet at h
   split at h
   · simp at h
@@ -473,24 +541,26 @@ theorem doSet_good {w w' : World} {S C : Nat → Prop} {o : Nat} {p : String} {a
         obtain ⟨v, w1⟩ := r
         obtain ⟨g1, hv⟩ := evalArg_good hc ha hev
         simp only at h
-        have g2 := touchParam_good (p := p) g1.closed ho
+        have g2 := touchParam_good (p := p) g1.closed ho (g1.fresh hf)
         split at h
-        · simp at h
-        · have g3 : Good (w1.touchParam o p) ((w1.touchParam o p).setObj o fun ob => { ob with values := insert ob.values p v }) S C :=
-            setObj_good g2.closed ho (fun ob _ hh => ⟨fun kv hkv => by
+        · rename_i old w2 _ hens
+          have g2' := ensureInObjects_good g2.closed ho hens
+          have g3 : Good w2 (w2.setObj o fun ob => { ob with values := insert ob.values p v }) S C :=
+            setObj_good g2'.closed ho (fun ob _ hh => ⟨fun kv hkv => by
               rcases mem_insert hkv with rfl | hm
               · exact hv
-              · exact hh.values kv hm, hh.attrs, hh.watchers, hh.dyn⟩)
-          have g4 := updateDeps_good (attr := p) ho c.methods _ g3.closed
+              · exact hh.values kv hm, hh.attrs, hh.watchers, hh.dyn, hh.pcopies⟩)
+          have g0123 := ((g1.trans g2).trans g2').trans g3
+          have g4 := updateDeps_good (attr := p) ho c.methods _ g3.closed (g0123.fresh hf)
           simp at h
           subst h
-          refine (((g1.trans g2).trans g3).trans g4).trans (log_good g4.closed _ ?_)
+          refine (g0123.trans g4).trans (log_good g4.closed _ ?_)
           intro e he
           simp only [List.mem_filterMap] at he
           obtain ⟨wt, hwt, hcall⟩ := he
           rw [callWatcher_owner hcall]
           have hwt' := mem_sortByPrec hwt
-          generalize hw4 : (((w1.touchParam o p).setObj o fun ob => { ob with values := insert ob.values p v }).updateDeps o p c.methods) = w4 at hwt' g4
+          generalize hw4 : ((w2.setObj o fun ob => { ob with values := insert ob.values p v }).updateDeps o p c.methods) = w4 at hwt' g4
           cases hob : w4.objs[o]? with
           | none => simp [hob] at hwt'
           | some ob =>
@@ -499,14 +569,36 @@ theorem doSet_good {w w' : World} {S C : Nat → Prop} {o : Nat} {p : String} {a
             | some l =>
               simp [hob, hl] at hwt'
               exact ((g4.closed o ob ho hob).watchers _ (lookup_mem hl) wt hwt').2
+        · simp at h
       · simp at h
 
-theorem setCell_good {w : World} {S C : Nat → Prop} {c : Nat} (l : List Int) (hc : Closed w S C) (hcc : C c) :
-    Good w { w with cells := w.cells.set c l } S C := by
-  refine ⟨hc, ⟨fun _ _ => rfl, ?_, rfl, ⟨[], by simp, by simp⟩, Nat.le_refl _, by simp⟩⟩
-  intro c' h
-  show (w.cells.set c l)[c']? = _
-  rw [List.getElem?_set_ne (fun (e : c = c') => h (by rw [← e]; exact hcc))]
+theorem doSelAdd_good {w w' : World} {S C : Nat → Prop} {o : Nat} {p : String} {n : Int}
+    (hc : Closed w S C) (ho : S o) (hf : Fresh w C) (h : doSelAdd w o p n = .ok w') : Good w w' S C := by
+  unfold doSelAdd at h
+  have g1 := touchParam_good (p := p) hc ho hf
+  cases hl : ((w.touchParam o p).objs[o]?).bind (fun ob => lookup ob.pcopies p) with
+  | none => simp [hl] at h
+  | some pc =>
+    simp only [hl] at h
+    split at h
+    · rename_i co cn d hs _
+      have hcc : C co ∧ C cn := by
+        refine pcopy_slots_inC (p := p) g1.closed ho ?_
+        cases hob : (w.touchParam o p).objs[o]? with
+        | none => simp [hob] at hl
+        | some ob =>
+          simp only [hob, Option.bind_some] at hl ⊢
+          rw [hl]; exact hs
+      split at h
+      · split at h
+        · simp at h; subst h; exact g1
+        · simp at h; subst h
+          have g2 := setCell_good (w := w.touchParam o p) (deref (w.touchParam o p).cells co ++ [n]) g1.closed hcc.1
+          have g3 := setCell_good (w := { (w.touchParam o p) with cells := (w.touchParam o p).cells.set co (deref (w.touchParam o p).cells co ++ [n]) })
+            (deref (w.touchParam o p).cells cn ++ [n]) g2.closed hcc.2
+          exact (g1.trans g2).trans g3
+      · simp at h
+    · simp at h
 
 theorem doMutate_good {w w' : World} {S C : Nat → Prop} {o : Nat} {p : String} {n : Int}
     (hc : Closed w S C) (ho : S o) (h : doMutate w o p n = .ok w') : Good w w' S C := by
@@ -518,15 +610,21 @@ theorem doMutate_good {w w' : World} {S C : Nat → Prop} {o : Nat} {p : String}
   · simp at h
 
 theorem doPEdit_good {w w' : World} {S C : Nat → Prop} {o : Nat} {p : String} {e : PEdit}
-    (hc : Closed w S C) (ho : S o) (h : doPEdit w o p e = .ok w') : Good w w' S C := by
+    (hc : Closed w S C) (ho : S o) (hf : Fresh w C) (h : doPEdit w o p e = .ok w') : Good w w' S C := by
   unfold doPEdit at h
-  have g1 := touchParam_good (p := p) hc ho
+  have g1 := touchParam_good (p := p) hc ho hf
   cases hl : ((w.touchParam o p).objs[o]?).bind (fun ob => lookup ob.pcopies p) with
   | none => simp [hl] at h
   | some pc =>
     simp only [hl] at h
     simp at h; subst h
-    exact g1.trans (setObj_good g1.closed ho (fun ob _ hh => ⟨hh.values, hh.attrs, hh.watchers, hh.dyn⟩))
+    refine g1.trans (setObj_good g1.closed ho (fun ob hob hh => ⟨hh.values, hh.attrs, hh.watchers, hh.dyn, ?_⟩))
+    intro kv hkv s hs
+    rcases mem_insert hkv with rfl | hm
+    · have hpc : lookup ob.pcopies p = some pc := by simpa [hob] using hl
+      have hsl : pc.slots = some s := by cases e <;> simpa using hs
+      exact hh.pcopies _ (lookup_mem hpc) s hsl
+    · exact hh.pcopies kv hm s hs
 
 theorem doSetAttr_good {w w' : World} {S C : Nat → Prop} {o : Nat} {name : String} {a : Arg}
     (hc : Closed w S C) (ho : S o) (ha : a.inSets w S C) (h : doSetAttr w o name a = .ok w') : Good w w' S C := by
@@ -540,7 +638,7 @@ theorem doSetAttr_good {w w' : World} {S C : Nat → Prop} {o : Nat} {name : Str
     exact g1.trans (setObj_good g1.closed ho (fun ob _ hh => ⟨hh.values, fun kv hkv => by
       rcases mem_insert hkv with rfl | hm
       · exact hv
-      · exact hh.attrs kv hm, hh.watchers, hh.dyn⟩))
+      · exact hh.attrs kv hm, hh.watchers, hh.dyn, hh.pcopies⟩))
 
 theorem doMutAttr_good {w w' : World} {S C : Nat → Prop} {o : Nat} {name : String} {n : Int}
     (hc : Closed w S C) (ho : S o) (h : doMutAttr w o name n = .ok w') : Good w w' S C := by
@@ -575,19 +673,21 @@ def Op.inSets (w : World) (S C : Nat → Prop) : Op → Prop
   | .setAttr o _ a => S o ∧ a.inSets w S C
   | .mutAttr o _ _ => S o
   | .watch o _ t _ => S o ∧ S t
+  | .selAdd o _ _ => S o
 
 /-- every operation on objects of a closed set (other than constructing a new object) keeps the set
 closed, changes nothing outside it and invokes only methods of its objects -/
-theorem step_good {w w' : World} {S C : Nat → Prop} {op : Op} (hc : Closed w S C) (hop : op.inSets w S C)
-    (h : step w op = .ok w') : Good w w' S C := by
+theorem step_good {w w' : World} {S C : Nat → Prop} {op : Op} (hc : Closed w S C) (hf : Fresh w C)
+    (hop : op.inSets w S C) (h : step w op = .ok w') : Good w w' S C := by
   cases op with
   | new cls kw => exact absurd hop (by simp [Op.inSets])
-  | set o p a => exact doSet_good hc hop.1 hop.2 h
+  | set o p a => exact doSet_good hc hop.1 hf hop.2 h
   | mutate o p n => exact doMutate_good hc hop h
-  | pedit o p e => exact doPEdit_good hc hop h
+  | pedit o p e => exact doPEdit_good hc hop hf h
   | setAttr o name a => exact doSetAttr_good hc hop.1 hop.2 h
   | mutAttr o name n => exact doMutAttr_good hc hop h
   | watch o p t cb => exact doWatch_good hc hop.1 hop.2 h
+  | selAdd o p n => exact doSelAdd_good hc hop hf h
 
 /-! ## `__setstate__` and the graph copy -/
 
@@ -958,7 +1058,14 @@ theorem copyGraph_unbound_eq {w : World} {root : Nat} (hroot : root < w.objs.len
 
 theorem renObj_refsIn (no nc np : Nat) (ob : Obj) :
     (renObj no nc np ob).refsIn (fun o => no ≤ o) (fun c => nc ≤ c) := by
-  refine ⟨?_, ?_, ?_, ?_⟩
+  refine ⟨?_, ?_, ?_, ?_, ?_⟩
+  rotate_right
+  · intro kv hkv s hs
+    simp only [renObj, List.mem_map] at hkv
+    obtain ⟨kv0, _, rfl⟩ := hkv
+    cases h0 : kv0.2.slots with
+    | none => simp [h0] at hs
+    | some s0 => simp [h0] at hs; subst hs; simp
   · intro kv hkv
     simp only [renObj, List.mem_map] at hkv
     obtain ⟨kv0, _, rfl⟩ := hkv
@@ -982,7 +1089,7 @@ theorem Rebound.refsIn {no nc np self : Nat} {ob ob' : Obj} (hs : no ≤ self)
   have h0 := renObj_refsIn no nc np ob
   rcases h with rfl | ⟨t, rfl, ht⟩
   · exact h0
-  · refine ⟨h0.values, h0.attrs, ?_, h0.dyn⟩
+  · refine ⟨h0.values, h0.attrs, ?_, h0.dyn, h0.pcopies⟩
     intro kv hkv wt hwt
     obtain ⟨hi, ho⟩ := ht kv hkv wt hwt
     refine ⟨by rw [hi]; exact hs, ?_⟩
@@ -1019,14 +1126,18 @@ theorem wfB_sound {w : World} (h : wfB w = true) :
   have hm : ob ∈ w.objs := List.mem_of_getElem? hob
   have h1 := (List.all_eq_true.1 h) ob hm
   simp only [objOKB, Bool.and_eq_true, List.all_eq_true] at h1
-  obtain ⟨⟨⟨hv, ha⟩, hw⟩, hd⟩ := h1
+  obtain ⟨⟨⟨⟨hv, ha⟩, hw⟩, hd⟩, hp⟩ := h1
   have hval : ∀ v : Val, valOKB w.objs.length w.cells.length v = true →
       v.inSets (fun o => o < w.objs.length) (fun c => c < w.cells.length) := by
     intro v hv
     cases v <;> simp_all [valOKB, Val.inSets]
   have hwt : ∀ wt : Watcher, watcherOKB w.objs.length wt = true → wt.inSet (fun o => o < w.objs.length) := by
     intro wt h; simp [watcherOKB] at h; exact h
-  exact ⟨fun kv hkv => hval _ (hv kv hkv), fun kv hkv => hval _ (ha kv hkv),
-         fun kv hkv wt hx => hwt wt (hw kv hkv wt hx), fun kv hkv wt hx => hwt wt (hd kv hkv wt hx)⟩
+  refine ⟨fun kv hkv => hval _ (hv kv hkv), fun kv hkv => hval _ (ha kv hkv),
+         fun kv hkv wt hx => hwt wt (hw kv hkv wt hx), fun kv hkv wt hx => hwt wt (hd kv hkv wt hx), ?_⟩
+  intro kv hkv s hs
+  have := hp kv hkv
+  simp only [hs, Bool.and_eq_true, decide_eq_true_eq] at this
+  exact this
 
 end ParamVerif.Copy
